@@ -194,6 +194,11 @@ class FakeIWork:
         self.handler = handler
 
     def open(self, filepath):
+        # a container that passed the metadata checks always delivers its plists as plain files
+        self.handler.store_file("Metadata/Properties.plist", b"plist")
+        self.handler.store_file("Metadata/BuildVersionHistory.plist", b"plist")
+        if nondet_bool("has-data-file"):
+            self.handler.store_file("Data/image.png", b"png")
         n = nondet_int("objects-in-container", 0, 2)
         for i in range(n):
             self.handler.store_object("Index/Document.iwa", i + 1, "obj")
@@ -242,7 +247,7 @@ HARNESSES = [_member(n) for n in range(0, 9)] + [_sniff(n) for n in range(0, 10)
             outside=["which byte offsets of a real file produce which fault (zipfile internals)", "package-folder form"],
             patches=[(IWAFile, "from_buffer", classmethod(fake_from_buffer_simple)), (plistlib, "loads", fake_plist_loads)]),
     Harness("H17c", h17c_store, dict(),
-            bounds="container delivering 0, 1 or 2 objects", stubs=["IWork replaced by a stub that stores n objects"],
+            bounds="container delivering its metadata files, optionally a data file, and 0, 1 or 2 objects", stubs=["IWork replaced by a stub that stores the files and n objects"],
             patches=[(containers_mod, "IWork", FakeIWork)]),
 ]
 QUICK = [f"H17a-n{n}" for n in range(0, 7)] + [f"H17a-sniff-n{n}" for n in range(0, 8)] + ["H17b", "H17c"]
